@@ -4,25 +4,41 @@ Every rule works on the *inlined view* (core/inline_stmt.py) of a public entry p
 names, local variable names or one loop idiom:
 
   C11.R1  entry = the matcher method Rule.assert_applies runs on the evaluable.  In its view: ModuleNameConverter.convert runs
-          unconditionally before every graph query, against the evaluable being queried, on the requirement as given to the
-          constructor; the queries, and the detectors / message generators built outside the view, receive values whose provenance
-          (c11_prov.py) is this evaluation's conversion of both sides - never pre-state (raw or stale).  State kept between
-          evaluations is only a violation if Rule.assert_applies does not create a fresh matcher per call.
+          unconditionally before every graph query, against the evaluable being queried (the parameter, or a local / field that
+          provably holds it), on the requirement as given to the constructor; the queries, and the detectors / message generators
+          built outside the view, receive values whose provenance (c11_prov.py) is this evaluation's conversion of both sides -
+          never pre-state (raw or stale).  State kept between evaluations is only a violation if Rule.assert_applies does not
+          create a fresh matcher per call (a factory stored in place of the matcher class is followed: it must create the matcher
+          it returns).  A conversion under a condition on the *rule* (not on the matcher's state) is followed branch by branch:
+          without the conversion a side may stay as specified only if the branch shows that it holds no regex filter, and may
+          share the other side's conversion only if the branch shows that both specifications are equal.  The class view
+          (c11_lib.class_view) takes apart helper calls in argument position, conditional / boolean expressions around them,
+          constructors of helper classes that own a part of the pipeline and try/except wrappers; a helper that hands out
+          conversions without being taken apart (a generator) stands for the conversions it makes; a graph query that is
+          reachable from the entry point but not shown by the view is undecided, never passed over.
   C11.R2  view of ModuleNameConverter.convert, described as collections (c11_coll.py): result[0] is exactly
           {ModuleNameFilter(m) | m in arch.modules, f in modules, f regex, re.match(f.identifier, m)} + {f | f in modules, f not regex};
           no early exit from the scan; ImpossibleMatch is raised iff the set of never-matched patterns (all patterns minus matched
           ones, in any of its spellings) is non-empty, and the test dominates the return.
   C11.R3  view of Rule.have_name_containing: the list stored into the rule's state is
-          {ModuleNameRegexFilter(name=convert_partial_match_to_regex(n)) | n in names}, unfiltered, stored on every path.
+          {ModuleNameRegexFilter(name=convert_partial_match_to_regex(n)) | n in names}, unfiltered, stored on every path - and it is
+          stored exactly like Rule.have_name_matching stores its filters: same state fields, same way (replace / extend),
+          equivalent conditions, so that only the pattern text differs between the partial-name form and its regex translation.
   C11.R4  views of the three public queries of EvaluableArchitecture: the result has one entry per element of the given collections
           (no filter), each value is a graph search over (graph, own key, whole given collections) only, nothing is carried from one
-          key to the next, every entry is stored under its own key unconditionally.
+          key to the next, every entry is stored under its own key unconditionally.  A value computed by a helper that cannot be
+          replaced by its body is followed: the helper must reach a graph search, be given the key and whole collections only, and
+          change nothing that outlives the call (fields of a shared object, parameters, closure / module variables).
+  C11.R5  the ImpossibleMatch raised by the conversion reaches the caller of Rule.assert_applies: in no function on a call path from
+          Rule.assert_applies to ModuleNameConverter.convert does the call that leads on sit under an `except` clause (by class,
+          base class or bare) that does not end in raising an error, under `contextlib.suppress`, or under a `finally` that
+          returns; turning it into AssertionError counts as a verdict; a failure handed on as a value must make every caller raise.
 """
 
 from __future__ import annotations
 
 import ast
-from dataclasses import dataclass
+from dataclasses import dataclass, field
 
 from core.guards import f_or, implies
 from core.inline_stmt import inline_view
@@ -36,6 +52,7 @@ from .common import assigned_names, cfg_of, dotted, guard_formula, reachable_fun
 from .tables import EXPLICIT_QUERY, MATCHER, MODREQ, OTHER_QUERIES, RULE, SEARCHES
 
 EVAL_ARCH = "pytestarch.eval_structure.evaluable_architecture"
+EV_TAG = "acc:@evaluable"  # provenance tag of the evaluable handed to the matcher entry point
 
 CONVERTER = "pytestarch.eval_structure.module_name_converter"
 
@@ -70,6 +87,106 @@ def _allow_r1(caller: FuncInfo, callee: FuncInfo) -> bool:
     if name.startswith("pytestarch.eval_structure"):
         return False
     return not any(name == m or (m.endswith(".") and name.startswith(m)) for m in CONSUMER_MODULES)
+
+
+@dataclass
+class Wrapped:
+    """A call of a repo helper that the view cannot take apart (a generator, a callable with several exits) and that hands out
+    results of ModuleNameConverter.convert: the call stands for the conversions it makes."""
+
+    call: ast.Call
+    callee: FuncInfo
+    accs: list[str]  # accessors of the module requirement whose filters it converts
+    ev_ok: bool  # every conversion inside is made against a parameter / a field of the matcher (which must hold the evaluable, see ev_exprs)
+    undecided: str = ""
+    ev_exprs: list = field(default_factory=list)  # argument expressions of the call / names of fields of `self` that must hold the evaluable
+    ev_text: str = ""
+
+
+def _wrapped_conversions(repo: Repo, fn: Fn, calls: list[ast.Call], accessors: dict[str, set[str]], ev: str) -> list[Wrapped]:
+    T = types_of(repo)
+    out: list[Wrapped] = []
+    for w in calls:
+        cs, how = fn.callees(w)
+        if len(cs) != 1 or how != "repo":
+            continue
+        g = cs[0]
+        if g.fq == CONVERT_FQ or g.is_abstract or isinstance(g.node, ast.Lambda) or g.module.name.startswith("pytestarch.eval_structure"):
+            continue
+        inner = []
+        for c in own_nodes(g.node):
+            if isinstance(c, ast.Call):
+                try:
+                    ics, _h = T.callees(g, c, byname_fallback=False)
+                except Exception:  # noqa: BLE001
+                    ics = []
+                if any(f.fq == CONVERT_FQ for f in ics):
+                    inner.append(c)
+        if not inner:
+            continue
+        gfn = Fn(repo, g)
+        why = ""
+        # the results leave the helper: yielded / returned (directly or through locals) - anything else is not followed
+        if not any(isinstance(x, (ast.Yield, ast.YieldFrom, ast.Return)) for x in own_nodes(g.node)):
+            why = f"{g.qualname} converts but hands nothing out"
+        # made on every run of the helper
+        for c in inner:
+            top = _always_run(gfn, c)
+            if flatten(gfn.conds_all(c)) or parent(top) is not g.node:
+                why = why or f"the conversion inside {g.qualname} is conditional"
+        # against the evaluable given at this call
+        a = g.node.args
+        pos = [p.arg for p in [*a.posonlyargs, *a.args]]
+        if g.cls is not None and g.outer is None and not g.is_staticmethod and pos:
+            pos = pos[1:]
+        bound: dict[str, ast.AST] = dict(zip(pos, w.args))
+        bound.update({k.arg: k.value for k in w.keywords if k.arg})
+        ev_ok = True
+        ev_exprs: list = []
+        ev_text = ""
+        for c in inner:
+            arch = c.args[1] if len(c.args) > 1 else next((k.value for k in c.keywords if k.arg not in (None, "modules")), None)
+            ev_text = ev_text or (norm(arch, 40) if arch is not None else "?")
+            if isinstance(arch, ast.Name) and arch.id in bound and all(d.kind == "param" for d in gfn.reaching(arch.id, arch)):
+                ev_exprs.append(bound[arch.id])
+            elif isinstance(arch, ast.Attribute) and isinstance(arch.value, ast.Name) and arch.value.id == "self" and isinstance(w.func, ast.Attribute) and isinstance(w.func.value, ast.Name) and w.func.value.id == "self" and not any(isinstance(x, ast.Attribute) and isinstance(x.ctx, ast.Store) and x.attr == arch.attr for x in own_nodes(g.node)):
+                ev_exprs.append(arch.attr)  # a field of the matcher, not written by the helper itself
+            else:
+                ev_ok = False
+
+        def attr_tags(at: ast.Attribute, base=frozenset()):
+            if at.attr in accessors and any(m[0] == "cls" and m[1].endswith(".ModuleRequirement") for m in _members(gfn.type_of(at.value))):
+                return {f"acc:{at.attr}"}
+            return None
+
+        sub = Provenance(gfn, lambda c_, a_: None, lambda x: _scalar_type(gfn.type_of(x)), attr_tags, None, None)
+        accs: set[str] = set()
+        for c in inner:
+            inp = c.args[0] if c.args else next((k.value for k in c.keywords), None)
+            got = {t[4:] for t in sub.of(inp) if t.startswith("acc:")} if inp is not None else set()
+            if not got:
+                why = why or f"the input `{norm(inp, 50) if inp is not None else '?'}` of the conversion inside {g.qualname} is not recognised as an accessor of the module requirement"
+            accs |= got
+        out.append(Wrapped(w, g, sorted(accs), ev_ok, why, ev_exprs, ev_text))
+    return out
+
+
+def _pipeline_ctor(init: FuncInfo) -> bool:
+    """Constructor of a helper class that owns a part of the pipeline under test: it (or what it calls) converts the regexes or
+    queries the graph.  Such a constructor is taken apart in the view; plain carriers (the requirement classes) stay calls."""
+    repo = init.module.repo  # type: ignore[attr-defined]
+    cache = repo.__dict__.setdefault("_c11_pipeline_ctor", {})
+    if init.fq not in cache:
+        hit = False
+        for g in reachable_funcs(repo, [init], byname=False):
+            if g.fq == CONVERT_FQ:
+                hit = True
+                break
+            if not g.module.name.startswith("pytestarch.eval_structure") and any(_query_site(x) for x in own_nodes(g.node)):
+                hit = True
+                break
+        cache[init.fq] = hit
+    return cache[init.fq]
 
 
 def _members(t) -> list:
@@ -112,12 +229,66 @@ def _entry_points(repo: Repo) -> tuple[list[FuncInfo], bool, str]:
     classes = _matcher_classes(repo)
     ev = view.param_names[1] if len(view.param_names) > 1 else ""
 
+    def is_ctor(f: FuncInfo) -> bool:
+        return f.cls in classes and f.name in ("__init__", "__post_init__")
+
+    stale: list[str] = []  # why a matcher handed out by a factory is not an object created for this call
+
+    def factory(f: FuncInfo, depth: int = 0) -> bool | None:
+        """A callable stored where the rule expects the matcher class (`Rule(rule_matcher_class=<bound method / function>)`):
+        None if it does not produce matchers; True if every object it returns is created by that very call; False (with the
+        reason in `stale`) if it may hand out an object that it keeps."""
+        if isinstance(f.node, ast.Lambda) or depth > 2:
+            return None
+        ann = f.node.returns
+        typed = ann is not None and any(m[0] == "cls" and repo.classes.get(m[1]) in classes for m in _members(T.ann(f.module, ann)))
+        ffn = Fn(repo, f)
+        rets = [r for r in own_nodes(f.node) if isinstance(r, ast.Return) and r.value is not None]
+        if not rets:
+            return None
+
+        def made_here(v: ast.AST | None, seen: int = 0) -> bool | None:
+            if isinstance(v, ast.Call):
+                cs, _how = ffn.callees(v)
+                if cs and all(is_ctor(g) for g in cs):
+                    return True
+                inner = [factory(g, depth + 1) if not is_ctor(g) else True for g in cs]
+                if cs and all(x is not None for x in inner):
+                    return all(inner)
+                return None
+            if isinstance(v, ast.Name) and seen < 3:
+                defs = ffn.reaching(v.id, v)
+                got = [made_here(d.value, seen + 1) if d.kind == "assign" else None for d in defs]
+                if defs and all(x is not None for x in got):
+                    return all(got)
+                return None
+            if isinstance(v, (ast.Attribute, ast.Subscript)) and any(m[0] == "cls" and repo.classes.get(m[1]) in classes for m in _members(ffn.type_of(v))):
+                return False  # an object kept in a field / container
+            return None
+
+        kinds = [made_here(r.value) for r in rets]
+        if any(k is None for k in kinds):
+            if not typed:
+                return None
+            kinds = [bool(k) for k in kinds]
+        if not all(kinds):
+            r = rets[[bool(k) for k in kinds].index(False)]
+            stale.append(f"the matcher may be handed out by {f.qualname} (`{header(r)[:60]}`), which does not create it for this call")
+            return False
+        return True
+
     def creates_matcher(v: ast.AST | None, deep: bool = True) -> bool:
+        """Is `v` a call that yields a matcher (constructor of a matcher class, or a factory stored in its place)?  Whether the
+        object is new is recorded in `stale`."""
         if not isinstance(v, ast.Call):
             return False
         cs, how = fn.callees(v)
-        if bool(cs) and all(f.cls in classes and f.name in ("__init__", "__post_init__") for f in cs):
+        if bool(cs) and all(is_ctor(f) for f in cs):
             return True
+        if cs and any(is_ctor(f) for f in cs):
+            kinds = [True if is_ctor(f) else factory(f) for f in cs]
+            if all(k is not None for k in kinds):
+                return True
         if deep and parent(v) is not None:  # a private factory whose body only builds the matcher
             x = fn.expand(v)
             return x is not v and creates_matcher(x, False)
@@ -132,6 +303,7 @@ def _entry_points(repo: Repo) -> tuple[list[FuncInfo], bool, str]:
         return creates_matcher(e)
 
     entries: list[FuncInfo] = []
+    matcher_calls: list[ast.Call] = []
     fresh, why = True, ""
     found = False
     for c in own_nodes(view.node):
@@ -146,6 +318,7 @@ def _entry_points(repo: Repo) -> tuple[list[FuncInfo], bool, str]:
         if not impls:
             continue
         found = True
+        matcher_calls.append(c)
         for f in impls:
             if f not in entries:
                 entries.append(f)
@@ -158,6 +331,9 @@ def _entry_points(repo: Repo) -> tuple[list[FuncInfo], bool, str]:
                 fresh, why = False, f"the matcher `{recv.id}` is `{norm(d.value) if d.value is not None else d.kind}`, not an object created for this call"
     if not found:
         raise AnalysisError("Rule.assert_applies: the call that runs the rule matcher on the evaluable was not found")
+    if fresh and stale:
+        fresh, why = False, stale[0]
+    repo.__dict__["_c11_matcher_calls"] = (view, matcher_calls)
     return entries, fresh, why
 
 
@@ -184,6 +360,85 @@ def _query_call(fn: Fn, c: ast.Call, ev: str) -> bool:
         # a query method selected by an expression: (a if c else b)(...), {flag: q1, ...}[flag](...)
         return any(is_q(x) for x in ast.walk(c.func))
     return False
+
+
+def _query_site(x: ast.AST) -> bool:
+    """A mention of one of the three public graph queries: `<e>.get_dependencies`, or its name as a string (getattr dispatch)."""
+    return (isinstance(x, ast.Attribute) and isinstance(x.ctx, ast.Load) and x.attr in QUERIES) or (isinstance(x, ast.Constant) and isinstance(x.value, str) and x.value in QUERIES)
+
+
+def _no_regex_guard(fn: Fn, prov: Provenance, test: ast.AST, value: bool, accessors: dict[str, set[str]]) -> set[str] | None:
+    """The sides of the requirement that hold no regex filter when `test` evaluates to `value`:
+    `any(f.identifier_is_regex for f in <side>)` false, `[f for f in <side> if f.identifier_is_regex]` empty,
+    `all(not f.identifier_is_regex for f in <side>)` true (through locals).  None if the test says nothing of the kind."""
+
+    def sides_of(e: ast.AST) -> set[str]:
+        orig = getattr(e, "_orig", (None, e))[1]
+        tags = prov.of(orig) | prov.of(e)
+        return set().union(*[accessors.get(t[4:], set()) for t in tags if t.startswith("acc:")]) if any(t.startswith("acc:") for t in tags) else set()
+
+    def comp_over(g: ast.AST, negated: bool) -> set[str]:
+        """comprehension `<P(x)> for x in E` / `x for x in E if P(x)`"""
+        if not isinstance(g, (ast.GeneratorExp, ast.ListComp, ast.SetComp)) or len(g.generators) != 1 or not isinstance(g.generators[0].target, ast.Name):
+            return set()
+        gen = g.generators[0]
+        var = gen.target.id
+        if gen.ifs:
+            lits = flatten([(c, True) for c in gen.ifs])
+            if negated or len(lits) != 1 or not (_is_regex_flag(lits[0][0], var) and lits[0][1]):
+                return set()
+        else:
+            lits = flatten([(g.elt, True)])
+            if len(lits) != 1 or not _is_regex_flag(lits[0][0], var) or lits[0][1] == negated:
+                return set()
+        return sides_of(gen.iter)
+
+    out: set[str] = set()
+    for lit, pol in flatten([(test, value)]):
+        e = fn.expand(lit) if parent(lit) is not None else lit
+        for x, p in flatten([(e, pol)]):
+            if isinstance(x, ast.Call) and isinstance(x.func, ast.Name) and len(x.args) == 1 and not x.keywords:
+                if x.func.id == "any" and not p:
+                    out |= comp_over(x.args[0], False)
+                elif x.func.id == "all" and p:
+                    out |= comp_over(x.args[0], True)
+            elif isinstance(x, (ast.ListComp, ast.SetComp)) and not p and x.generators and x.generators[0].ifs:
+                out |= comp_over(x, False)
+    return out or None
+
+
+def _same_spec_guard(fn: Fn, prov: Provenance, test: ast.AST, value: bool):
+    """Does `test == value` say that the two sides of the requirement are the same specification?
+    ("same", {sides}) for `<side a> == <side b>` on the filter objects themselves (order / duplicate-insensitive copies allowed);
+    ("projected", text) when only a projection of the filters is compared (`f.identifier for f in ...`): filters of different
+    kinds with the same text then count as the same; None when the test is something else."""
+
+    def raw_sides(e: ast.AST) -> set[str]:
+        orig = getattr(e, "_orig", (None, e))[1]
+        return {t[4:] for t in (prov.of(orig) | prov.of(e)) if t.startswith("raw:")}
+
+    def operand(e: ast.AST):
+        """(sides, projected?)"""
+        while isinstance(e, ast.Call) and isinstance(e.func, ast.Name) and e.func.id in ("list", "tuple", "set", "frozenset", "sorted") and len(e.args) == 1:
+            e = e.args[0]
+        if isinstance(e, (ast.GeneratorExp, ast.ListComp, ast.SetComp)) and len(e.generators) == 1 and not e.generators[0].ifs:
+            sd = raw_sides(e.generators[0].iter)
+            plain = isinstance(e.elt, ast.Name) and isinstance(e.generators[0].target, ast.Name) and e.elt.id == e.generators[0].target.id
+            return sd, not plain
+        if isinstance(e, ast.Call) and isinstance(e.func, ast.Name) and e.func.id == "map" and len(e.args) == 2:
+            return raw_sides(e.args[1]), True
+        return raw_sides(e), False
+
+    for lit, pol in flatten([(test, value)]):
+        e = fn.expand(lit) if parent(lit) is not None else lit
+        for x, p in flatten([(e, pol)]):
+            if isinstance(x, ast.Compare) and len(x.ops) == 1 and isinstance(x.ops[0], ast.Eq) and p:
+                (sa, pa), (sb, pb) = operand(x.left), operand(x.comparators[0])
+                if len(sa) == 1 and len(sb) == 1 and sa != sb:
+                    if pa or pb:
+                        return "projected", norm(x, 70)
+                    return "same", sa | sb
+    return None
 
 
 def _requirement_sides(repo: Repo) -> tuple[dict[str, set[str]], list[str]]:
@@ -286,6 +541,7 @@ def run_r1(repo: Repo, res: Result) -> None:
     nq = 0
     concrete = [c for c in classes if not any(m.is_abstract and repo.lookup_method(c, m.name) is m for k in repo.mro(c) for m in k.methods.values())] or classes[:1]
     reported: dict[str, bool] = {}
+    judged_sites: set[int] = set()
 
     class Dedupe:
         """The same construct analysed for several concrete matcher classes is reported once per verdict."""
@@ -310,17 +566,36 @@ def run_r1(repo: Repo, res: Result) -> None:
     res = Dedupe()
     for cur, entry0 in [(c, e) for c in concrete for e in entries]:
         entry = repo.lookup_method(cur, entry0.name) or entry0
-        view = class_view(repo, entry, cur, allow=_allow_r1, max_depth=4)
+        view = class_view(repo, entry, cur, allow=_allow_r1, max_depth=4, inline_ctor=_pipeline_ctor)
         fn = Fn(repo, view)
         cfg = cfg_of(view)
         ev = next((p.arg for p in view.params[1:] if p.annotation is not None and any(m[0] == "cls" and m[1].endswith(".EvaluableArchitecture") for m in _members(T.ann(view.module, p.annotation)))), view.param_names[1] if len(view.param_names) > 1 else "")
         calls = [c for c in own_nodes(view.node) if isinstance(c, ast.Call)]
         convs = [c for c in calls if any(f.fq == CONVERT_FQ for f in fn.callees(c)[0])]
+        wrapped = {id(x.call): x for x in _wrapped_conversions(repo, fn, [c for c in calls if c not in convs], accessors, ev)}
+        convs += [x.call for x in wrapped.values()]
+
+        def conv_input(c: ast.Call) -> ast.AST | None:
+            if id(c) in wrapped:
+                return None
+            return c.args[0] if c.args else next((k.value for k in c.keywords), None)
+
+        def conv_accs(c: ast.Call, pv) -> list[str]:  # noqa: ANN001
+            if id(c) in wrapped:
+                return list(wrapped[id(c)].accs)
+            inp_ = conv_input(c)
+            return sorted(t[4:] for t in pv.of(inp_) if t.startswith("acc:")) if inp_ is not None else []
         queries = [c for c in calls if _query_call(fn, c, ev)]
         base = f"{entry.relpath}::{entry.qualname}::"
         if not queries:
             raise AnalysisError(f"{entry.fq}: no graph query on `{ev}` found in the inlined view (rule would pass vacuously)")
         nq += len(queries)
+        for q in queries:
+            heads = [q.func]
+            if isinstance(q.func, ast.Name):
+                heads += [d.value for d in fn.reaching(q.func.id, q.func) if d.value is not None]
+            for h in heads:
+                judged_sites.update(id(getattr(x, "_src", (None, x))[1]) for x in ast.walk(h) if _query_site(x))
         # ---- provenance: which conversion (of which side) does a value derive from; `pre:` = state from before this evaluation
         ids = {id(c): i for i, c in enumerate(convs)}
 
@@ -328,14 +603,22 @@ def run_r1(repo: Repo, res: Result) -> None:
             if id(call) not in ids:
                 return None
             out = {f"conv:{ids[id(call)]}"}
+            if id(call) in wrapped:
+                for a_ in wrapped[id(call)].accs:
+                    out |= {f"cside:{p}" for p in accessors.get(a_, ())}
+                return out
             for t in (argtags[0] if argtags else ()):
                 if t.startswith("acc:"):
                     out |= {f"cside:{p}" for p in accessors.get(t[4:], ())}
             return out
 
-        def attr_tags(a: ast.Attribute):
+        def attr_tags(a: ast.Attribute, base=frozenset()):
             if a.attr in accessors and any(m[0] == "cls" and m[1].endswith(".ModuleRequirement") for m in _members(fn.type_of(a.value))):
-                return {f"acc:{a.attr}"}
+                out = {f"acc:{a.attr}"}
+                if base and not any(t.startswith(("conv:", "cside:")) for t in base):
+                    # read off a requirement that no conversion has touched: the filters as the user specified them
+                    out |= {f"raw:{sd}" for sd in accessors[a.attr]}
+                return out
             return None
 
         assumed: list[str] = []
@@ -364,27 +647,87 @@ def run_r1(repo: Repo, res: Result) -> None:
             cs, how = fn.callees(call)
             return how == "ctor" or (bool(cs) and all(f.name in ("__init__", "__post_init__") for f in cs))
 
-        prov = Provenance(fn, source, lambda a: _scalar_type(fn.type_of(a)), attr_tags, assume, passes)
+        def on_state(lits_: list) -> bool:
+            """Do the literals read state of the matcher that an evaluation can change (a field written outside the constructor,
+            or `self` handed to something that is not shown)?  Fields only the constructor writes are part of the rule."""
+            for l, _p in lits_:
+                for x in ast.walk(l):
+                    if isinstance(x, ast.Name) and x.id == "self":
+                        up = parent(x)
+                        if not (isinstance(up, ast.Attribute) and up.value is x and isinstance(up.ctx, ast.Load)):
+                            return True
+                        if isinstance(parent(up), ast.Call) and parent(up).func is up:
+                            return True  # a method that the view does not show
+                        if any(m.name != "__init__" for m, _n in _stores_of_field(repo, up.attr)):
+                            return True
+            return False
+
+        def make_prov(forced: dict[int, bool] | None = None) -> Provenance:
+            def assume2(st_if: ast.If, state: dict):
+                if forced and id(st_if) in forced:
+                    return forced[id(st_if)]
+                return assume(st_if, state)
+
+            return Provenance(fn, source, lambda a: _scalar_type(fn.type_of(a)), attr_tags, assume2, passes, init={ev: frozenset({EV_TAG})})
+
+        prov = make_prov()
+        # ---- conversions that run only under a condition on the *rule* (not on the matcher's state): `if <cond>: convert(side)
+        # else: <something else>`.  Each such branch is followed separately below; on the path without the conversion the side must
+        # still be its own specification (and provably free of regex filters), never something derived from elsewhere.
+        splits: dict[int, tuple[ast.If, bool, list[ast.Call]]] = {}
+        unsplit: list[ast.Call] = []
+        for c in convs:
+            lits_c = flatten(fn.conds_all(c))
+            if not lits_c or on_state(lits_c):
+                continue
+            st_c = stmt_of(c)
+            holder = next((a for a in ancestors(st_c) if isinstance(a, (ast.If, ast.For, ast.AsyncFor, ast.While, ast.Try, ast.With))), None)
+            if not isinstance(holder, ast.If) or fn.conds_all(c) != fn.conds_all(st_c):
+                unsplit.append(c)
+                continue
+            in_body = any(st_c is x or any(y is st_c for y in ast.walk(x)) for x in holder.body)
+            if id(holder) in splits and splits[id(holder)][1] != in_body:
+                continue  # both branches convert
+            splits.setdefault(id(holder), (holder, in_body, []))[2].append(c)
+        if len(splits) > 3:
+            unsplit += [c for _h, _b, cs in splits.values() for c in cs]
+            splits = {}
+        split_convs = {id(c) for _h, _b, cs in splits.values() for c in cs}
         # ---- (1) the conversion runs on every evaluation, before any query, against the evaluable being queried
         problems: list[tuple[str, ast.AST, bool]] = []  # (text, node, depends on matcher state)
         if not convs:
+            hidden = [g for g in reachable_funcs(repo, [entry], byname=True) if g.fq == CONVERT_FQ]
+            if hidden:
+                res.undecide("C11.R1", base + "conversion dominates evaluation", "ModuleNameConverter.convert is reachable from the matcher entry point, but not through calls that the inlined view shows (a wrapper the view could not take apart)", where(view, view.node))
+                continue
             problems.append(("the regex filters are never converted to module names before the graph is queried", queries[0], True))
         for c in convs:
+            if id(c) in split_convs:
+                continue  # followed branch by branch below
             lits = flatten(fn.conds_all(c))
+            state = on_state(lits)
             if lits:
-                state = any(isinstance(x, ast.Name) and x.id == "self" for l, _ in lits for x in ast.walk(l))
                 problems.append((f"the conversion `{norm(c, 60)}` only runs if `{' and '.join(('' if p else 'not ') + norm(l, 50) for l, p in lits)}`", c, state))
             for q in queries:
                 if not cfg.dominates(_always_run(fn, c), stmt_of(q)):
-                    problems.append((f"the query `{norm(q, 50)}` can be reached without the conversion `{norm(c, 50)}`", q, True))
+                    problems.append((f"the query `{norm(q, 50)}` can be reached without the conversion `{norm(c, 50)}`", q, state or not lits))
                     break
         for c in convs:
+            if id(c) in wrapped:
+                wr = wrapped[id(c)]
+                if wr.undecided:
+                    res.undecide("C11.R1", base + "conversion dominates evaluation", f"`{norm(c, 60)}`: {wr.undecided}", where(view, c))
+                held = [set(prov.of(x)) if not isinstance(x, str) else set(prov.field_at(stmt_of(c), x)) for x in wr.ev_exprs]
+                if not wr.ev_ok or any(h != {EV_TAG} for h in held):
+                    problems.append((f"`{norm(c, 70)}` converts against `{wr.ev_text}` inside {wr.callee.qualname}, not against the evaluable `{ev}` being checked", c, False))
+                continue
             arg = c.args[1] if len(c.args) > 1 else next((k.value for k in c.keywords if k.arg not in (None, "modules")), None)
-            if not (isinstance(arg, ast.Name) and arg.id == ev and all(d.kind == "param" for d in fn.reaching(ev, arg))):
+            direct = isinstance(arg, ast.Name) and arg.id == ev and all(d.kind == "param" for d in fn.reaching(ev, arg))
+            if not direct and not (arg is not None and set(prov.of(arg)) == {EV_TAG}):  # the parameter itself, or a local / field that holds it on every path
                 problems.append((f"`{norm(c, 70)}` converts against `{norm(arg) if arg is not None else '?'}`, not against the evaluable `{ev}` being checked", c, False))
         # the input of the conversion is the requirement as specified, not something an earlier evaluation left behind
         for c in convs:
-            inp = c.args[0] if c.args else next((k.value for k in c.keywords), None)
+            inp = conv_input(c)
             for t in sorted(prov.of(inp)) if inp is not None else []:
                 if not t.startswith("pre:self."):
                     continue
@@ -400,6 +743,8 @@ def run_r1(repo: Repo, res: Result) -> None:
             res.add("C11.R1", key, False, f"{wrong_target[0][0]}: the regexes are resolved against another architecture than the one evaluated", where(view, wrong_target[0][1]), kind="dominance")
         elif not problems:
             res.add("C11.R1", key, True, "regexes are converted to module names before any graph query, unconditionally, against the evaluable being checked", where(view, view.node), kind="dominance")
+        elif other:
+            res.undecide("C11.R1", key, other[0][0] + " - a condition that is not about the matcher's own state; the path without the conversion could not be followed", where(view, other[0][1]))
         elif fresh and convs:
             res.add("C11.R1", key, True, f"the conversion depends on the matcher's state ({problems[0][0]}), but Rule.assert_applies creates a new matcher for every call, so every evaluation starts from the constructor state", where(view, problems[0][1]), kind="dominance")
         elif stateful:
@@ -407,95 +752,363 @@ def run_r1(repo: Repo, res: Result) -> None:
             res.add("C11.R1", key, False, f"{stateful[0][0]}{extra}: a stale or missing conversion is evaluated", where(view, stateful[0][1]), kind="dominance")
         else:
             res.undecide("C11.R1", key, other[0][0], where(view, other[0][1]))
-        # ---- (2) both sides are converted
-        conv_side: dict[int, set[str]] = {}
-        acc_text: dict[int, list[str]] = {}
-        for c in convs:
-            inp = c.args[0] if c.args else next((k.value for k in c.keywords), None)
-            accs = sorted(t[4:] for t in prov.of(inp) if t.startswith("acc:")) if inp is not None else []
-            acc_text[ids[id(c)]] = accs
-            conv_side[ids[id(c)]] = set().union(*[accessors.get(a, set()) for a in accs]) if accs else set()
-        covered = set().union(*conv_side.values()) if conv_side else set()
-        all_accs = sorted({a for v in acc_text.values() for a in v})
-        distinct = len(all_accs) >= min(2, len(sides))
-        ok = bool(convs) and set(sides) <= covered and distinct
-        if convs and any(not v for v in conv_side.values()):
-            res.undecide("C11.R1", base + "both sides converted", f"the input `{norm(convs[[i for i, v in conv_side.items() if not v][0]].args[0], 60) if convs[0].args else '?'}` of a conversion is not recognised as an accessor of the module requirement", where(view, convs[0]))
-        else:
-            res.add("C11.R1", base + "both sides converted", ok, "importers and importees are both converted against the evaluable being checked" if ok else f"the conversion covers {all_accs} only: a side ({', '.join(sorted(set(sides) - covered)) or 'one of ' + ', '.join(sides)}) keeps its regex filters or is converted twice", where(view, convs[0] if convs else view.node), kind="structural")
-        # ---- (3) the queries receive converted filters only
-        for q in queries:
-            args = [*q.args, *[k.value for k in q.keywords]]
-            bad = ""
-            unsure = ""
-            got: set[str] = set()
-            for a in args:
-                t = prov.of(a)
-                pre = sorted(x for x in t if x.startswith("pre:"))
-                got |= {x[6:] for x in t if x.startswith("cside:")}
-                flt = sorted(x for x in t if x.startswith("via:filter:"))
-                via = sorted(x for x in t if x.startswith("via:") and not x.startswith("via:filter:"))
-                if pre:
-                    bad = bad or f"`{norm(a, 60)}` is read from `{pre[0][4:]}` as it was before this evaluation's conversion (the un-converted or a stale requirement)"
-                elif not any(x.startswith("conv:") for x in t):
-                    bad = bad or f"`{norm(a, 60)}` does not come from the conversion"
-                elif flt:
-                    bad = bad or f"the converted filters are filtered (`{flt[0][11:]}`) before they reach `{norm(a, 60)}`: modules the regex matches are dropped from the rule"
-                elif via:
-                    unsure = unsure or f"the converted filters pass through `{via[0][4:]}` before they reach `{norm(a, 60)}` - not recognised as an unchanged hand-over"
-            if not bad and convs and not set(sides) <= got:
-                bad = f"only the conversion of {sorted(got)} reaches the query"
-            if unsure and not bad:
-                res.undecide("C11.R1", repo.key(view, stmt_of(q)) + f" [{norm(q.func, 80)}]", unsure, where(view, q))
-                continue
-            res.add("C11.R1", repo.key(view, stmt_of(q)) + f" [{norm(q.func, 80)}]", not bad, "queries the graph with the converted requirement" if not bad else (bad if "filtered" in bad else f"{bad}: regex filters reach a graph query"), where(view, q), kind="flow")
-        # ---- (4) consumers outside the view (detectors, message generators) read the converted requirement
-        seen: set[tuple[str, str]] = set()
-        for c in calls:
-            if not (isinstance(c.func, ast.Attribute) and isinstance(c.func.value, ast.Name) and c.func.value.id == "self"):
-                continue
-            roots = [f for f in fn.callees(c)[0] if f.cls in classes]
-            if not roots:
-                continue
-            for m in reachable_funcs(repo, roots, byname=False):
-                if m.cls not in classes:
+        # ---- every combination of the rule-dependent branches is followed on its own (no such branch: one pass, as written)
+        import itertools
+
+        spec_fields = {t for c in convs if conv_input(c) is not None for t in prov.of(conv_input(c)) if t.startswith("pre:")}
+        main_prov = prov
+        for combo in itertools.product((True, False), repeat=len(splits)):
+            forced = {hid: (in_body if run else not in_body) for (hid, (_h, in_body, _cs)), run in zip(splits.items(), combo)}
+            prov = make_prov(forced) if splits else main_prov
+            skipped_convs = {id(c) for (_hid, (_h, _b, cs)), run in zip(splits.items(), combo) if not run for c in cs}
+            active = [c for c in convs if id(c) not in skipped_convs]
+            raw_ok: set[str] = set()  # sides that may reach the queries as specified: the branch taken shows they hold no regex filter
+            raw_unsure: dict[str, str] = {}
+            raw_wrong: dict[str, str] = {}
+            alias_ok: dict[str, set[str]] = {}  # side -> the other side, when the branch taken shows both sides are the same specification
+            projected: dict[str, str] = {}
+            opaque: dict[str, str] = {}
+            where_skipped = ""
+            for (_hid, (h, in_body, cs)), run in zip(splits.items(), combo):
+                if run:
                     continue
-                for node in own_nodes(m.node):
-                    if not (isinstance(node, ast.Attribute) and isinstance(node.ctx, ast.Load) and isinstance(node.value, ast.Name) and node.value.id == "self"):
-                        continue
-                    if not _carrying(repo, T.expr(m, node)):
-                        continue
-                    up = parent(node)
-                    if isinstance(up, ast.Attribute) and _scalar_type(T.expr(m, up)):
-                        continue  # only a flag of the requirement is read
-                    t = prov.field_at(stmt_of(c), node.attr)
-                    pre = [x for x in t if x.startswith("pre:")]
+                where_skipped = where_skipped or f"when `{norm(h.test, 60)}` is {'false' if in_body else 'true'}"
+                for c in cs:
+                    sides_c = set().union(*[accessors.get(a_, set()) for a_ in conv_accs(c, main_prov)]) if conv_accs(c, main_prov) else set()
+                    free = _no_regex_guard(fn, main_prov, h.test, not in_body, accessors)
+                    same = _same_spec_guard(fn, main_prov, h.test, not in_body)
+                    for sd in sides_c:
+                        if free is not None and sd in free:
+                            raw_ok.add(sd)
+                        elif free is not None:
+                            raw_wrong[sd] = f"{where_skipped} the {sd} reach the query as the user specified them, regex filters included: the condition only shows that the {', '.join(sorted(free))} hold no regex filter"
+                        else:
+                            raw_unsure[sd] = f"{where_skipped} the {sd} are not converted; the condition is not recognised as 'none of them is a regex filter'"
+                        if same is not None and same[0] == "same" and sd in same[1]:
+                            alias_ok[sd] = same[1] - {sd}
+                        elif same is not None and same[0] == "projected":
+                            projected[sd] = same[1]
+                        else:
+                            opaque[sd] = norm(h.test, 60)
+            tag = f" [{where_skipped}]" if where_skipped else ""
+
+            def excuse(t):  # noqa: ANN001
+                """(pre tags that count, does the value come from the conversion or from a regex-free specification, sides delivered)"""
+                acc_sides = {x[4:] for x in t if x.startswith("raw:")}
+                pre_ = sorted(x for x in t if x.startswith("pre:"))
+                raw_fine = bool(acc_sides) and acc_sides <= raw_ok and all(x in spec_fields for x in pre_)
+                if raw_fine:
+                    pre_ = []
+                got_ = {x[6:] for x in t if x.startswith("cside:")} | (acc_sides & raw_ok)
+                return pre_, raw_fine or any(x.startswith("conv:") for x in t), got_, acc_sides
+
+            # ---- (2) both sides are converted
+            conv_side: dict[int, set[str]] = {}
+            acc_text: dict[int, list[str]] = {}
+            for c in active:
+                accs = conv_accs(c, prov)
+                acc_text[ids[id(c)]] = accs
+                conv_side[ids[id(c)]] = set().union(*[accessors.get(a, set()) for a in accs]) if accs else set()
+            covered = set().union(*conv_side.values()) if conv_side else set()
+            all_accs = sorted({a for v in acc_text.values() for a in v})
+            distinct = len(all_accs) >= min(2, len(sides))
+            ok = bool(convs) and set(sides) <= (covered | raw_ok) and (distinct or bool(raw_ok))
+            if skipped_convs and not ok:
+                pass  # decided where the sides reach the queries (3)
+            elif convs and any(not v for v in conv_side.values()):
+                res.undecide("C11.R1", base + "both sides converted", f"the input `{norm(conv_input(convs[[i for i, v in conv_side.items() if not v][0]]) or convs[0], 60)}` of a conversion is not recognised as an accessor of the module requirement", where(view, convs[0]))
+            else:
+                res.add("C11.R1", base + "both sides converted", ok, "importers and importees are both converted against the evaluable being checked" if ok else f"the conversion covers {all_accs} only: a side ({', '.join(sorted(set(sides) - covered)) or 'one of ' + ', '.join(sides)}) keeps its regex filters or is converted twice", where(view, convs[0] if convs else view.node), kind="structural")
+            # ---- (3) the queries receive converted filters only
+            for q in queries:
+                args = [*q.args, *[k.value for k in q.keywords]]
+                bad = ""
+                unsure = ""
+                got: set[str] = set()
+                raw_seen: set[str] = set()
+                for a in args:
+                    t = prov.of(a)
+                    pre, from_conv, got_a, acc_sides = excuse(t)
+                    got |= got_a
+                    raw_seen |= acc_sides
                     flt = sorted(x for x in t if x.startswith("via:filter:"))
-                    okr = not pre and not flt and any(x.startswith("conv:") for x in t)
-                    k = (m.fq, norm(stmt_of(node)) + node.attr)
-                    if k in seen and okr:
-                        continue
-                    seen.add(k)
-                    nq += 1
-                    shown = up if isinstance(up, ast.Attribute) else node
-                    res.add("C11.R1", repo.key(m, stmt_of(node)) + f" [{norm(shown, 80)}]", okr, "reads the converted requirement" if okr else f"{m.qualname} reads `{norm(shown)}`, which at the call `{norm(c, 50)}` is {'the un-converted (or a stale) requirement' if pre else ('the conversion result filtered by `' + flt[0][11:] + '`') if flt else 'not the result of the conversion'}: the detector / message generator does not judge the converted requirement", where(m, node), kind="flow")
-        # consumers constructed inside the view (their factory was inlined for this concrete class)
-        for c in calls:
-            cs_, how_ = fn.callees(c)
-            if not cs_ or not all(f.name in ("__init__", "__post_init__") and any(f.module.name == m or (m.endswith(".") and f.module.name.startswith(m)) for m in CONSUMER_MODULES) for f in cs_):
-                continue
-            for a in [*c.args, *[k.value for k in c.keywords]]:
-                if not _carrying(repo, fn.type_of(a)):
+                    via = sorted(x for x in t if x.startswith("via:") and not x.startswith("via:filter:"))
+                    if acc_sides & set(raw_wrong) and all(x in spec_fields for x in pre):
+                        bad = bad or raw_wrong[sorted(acc_sides & set(raw_wrong))[0]]
+                    elif acc_sides & set(raw_unsure) and all(x in spec_fields for x in pre):
+                        unsure = unsure or raw_unsure[sorted(acc_sides & set(raw_unsure))[0]]
+                    elif pre:
+                        bad = bad or f"`{norm(a, 60)}` is read from `{pre[0][4:]}` as it was before this evaluation's conversion (the un-converted or a stale requirement)"
+                    elif not from_conv:
+                        bad = bad or f"`{norm(a, 60)}` does not come from the conversion"
+                    elif flt:
+                        bad = bad or f"the converted filters are filtered (`{flt[0][11:]}`) before they reach `{norm(a, 60)}`: modules the regex matches are dropped from the rule"
+                    elif via:
+                        unsure = unsure or f"the converted filters pass through `{via[0][4:]}` before they reach `{norm(a, 60)}` - not recognised as an unchanged hand-over"
+                got |= {sd for sd, others in alias_ok.items() if others <= got}
+                if not bad and convs and not set(sides) <= got:
+                    missing = set(sides) - got
+                    if missing <= (raw_seen & set(raw_unsure)):
+                        unsure = unsure or raw_unsure[sorted(missing)[0]]
+                    elif skipped_convs and missing <= set(projected):
+                        bad = f"{where_skipped} the {', '.join(sorted(missing))} given to the query do not derive from the {', '.join(sorted(missing))} the user specified (only the conversion of {sorted(got)} reaches it), and `{projected[sorted(missing)[0]]}` compares a projection of the filters only: a regex filter and a name filter with the same text count as the same specification"
+                    elif skipped_convs and missing <= set(opaque) | set(projected):
+                        unsure = unsure or f"{where_skipped} the {', '.join(sorted(missing))} given to the query derive from the conversion of {sorted(got)} only; `{opaque.get(sorted(missing)[0], '')}` is not recognised as 'both sides are the same specification'"
+                    elif skipped_convs:
+                        bad = f"{where_skipped} the {', '.join(sorted(missing))} given to the query do not derive from the {', '.join(sorted(missing))} the user specified (only the conversion of {sorted(got)} reaches it)"
+                    else:
+                        bad = f"only the conversion of {sorted(got)} reaches the query"
+                if unsure and not bad:
+                    res.undecide("C11.R1", repo.key(view, stmt_of(q)) + f" [{norm(q.func, 80)}]", unsure, where(view, q))
                     continue
-                t = prov.of(a)
-                pre = sorted(x for x in t if x.startswith("pre:"))
-                flt = sorted(x for x in t if x.startswith("via:filter:"))
-                okr = not pre and not flt and any(x.startswith("conv:") for x in t)
-                nq += 1
-                res.add("C11.R1", repo.key(view, stmt_of(c)) + f" [{norm(a, 80)}]", okr, "is built from the converted requirement" if okr else f"`{norm(c, 60)}` receives `{norm(a, 50)}`, which is {'read from `' + pre[0][4:] + '` as it was before this evaluation (the un-converted or a stale requirement)' if pre else ('the conversion result filtered by `' + flt[0][11:] + '`') if flt else 'not the result of the conversion'}: the detector / message generator does not judge the converted requirement", where(view, c), kind="flow")
+                res.add("C11.R1", repo.key(view, stmt_of(q)) + f" [{norm(q.func, 80)}]" + (tag if bad else ""), not bad, "queries the graph with the converted requirement" if not bad else (bad if "filtered" in bad or "do not derive" in bad or "regex filters included" in bad else f"{bad}: regex filters reach a graph query"), where(view, q), kind="flow")
+            # ---- (4) consumers outside the view (detectors, message generators) read the converted requirement
+            seen: set[tuple[str, str]] = set()
+            for c in calls:
+                if not (isinstance(c.func, ast.Attribute) and isinstance(c.func.value, ast.Name) and c.func.value.id == "self"):
+                    continue
+                if id(c) in wrapped:
+                    continue  # reads the requirement as specified in order to convert it
+                roots = [f for f in fn.callees(c)[0] if f.cls in classes]
+                if not roots:
+                    continue
+                for m in reachable_funcs(repo, roots, byname=False):
+                    if m.cls not in classes:
+                        continue
+                    for node in own_nodes(m.node):
+                        if not (isinstance(node, ast.Attribute) and isinstance(node.ctx, ast.Load) and isinstance(node.value, ast.Name) and node.value.id == "self"):
+                            continue
+                        if not _carrying(repo, T.expr(m, node)):
+                            continue
+                        up = parent(node)
+                        if isinstance(up, ast.Attribute) and _scalar_type(T.expr(m, up)):
+                            continue  # only a flag of the requirement is read
+                        t = prov.field_at(stmt_of(c), node.attr)
+                        pre, from_conv, _got, acc_sides = excuse(t)
+                        if acc_sides & set(raw_unsure):
+                            continue  # undecided where the same value reaches the queries
+                        flt = sorted(x for x in t if x.startswith("via:filter:"))
+                        okr = not pre and not flt and from_conv
+                        k = (m.fq, norm(stmt_of(node)) + node.attr)
+                        if k in seen and okr:
+                            continue
+                        seen.add(k)
+                        nq += 1
+                        shown = up if isinstance(up, ast.Attribute) else node
+                        res.add("C11.R1", repo.key(m, stmt_of(node)) + f" [{norm(shown, 80)}]", okr, "reads the converted requirement" if okr else f"{m.qualname} reads `{norm(shown)}`, which at the call `{norm(c, 50)}` is {'the un-converted (or a stale) requirement' if pre else ('the conversion result filtered by `' + flt[0][11:] + '`') if flt else 'not the result of the conversion'}: the detector / message generator does not judge the converted requirement", where(m, node), kind="flow")
+            # consumers constructed inside the view (their factory was inlined for this concrete class)
+            for c in calls:
+                cs_, how_ = fn.callees(c)
+                if not cs_ or not all(f.name in ("__init__", "__post_init__") and any(f.module.name == m or (m.endswith(".") and f.module.name.startswith(m)) for m in CONSUMER_MODULES) for f in cs_):
+                    continue
+                for a in [*c.args, *[k.value for k in c.keywords]]:
+                    if not _carrying(repo, fn.type_of(a)):
+                        continue
+                    t = prov.of(a)
+                    pre, from_conv, _got, acc_sides = excuse(t)
+                    if acc_sides & set(raw_unsure):
+                        continue  # undecided where the same value reaches the queries
+                    flt = sorted(x for x in t if x.startswith("via:filter:"))
+                    okr = not pre and not flt and from_conv
+                    nq += 1
+                    res.add("C11.R1", repo.key(view, stmt_of(c)) + f" [{norm(a, 80)}]", okr, "is built from the converted requirement" if okr else f"`{norm(c, 60)}` receives `{norm(a, 50)}`, which is {'read from `' + pre[0][4:] + '` as it was before this evaluation (the un-converted or a stale requirement)' if pre else ('the conversion result filtered by `' + flt[0][11:] + '`') if flt else 'not the result of the conversion'}: the detector / message generator does not judge the converted requirement", where(view, c), kind="flow")
+        prov = main_prov
         if assumed:
             res.observe(f"C11.R1: evaluated under the constructor state of a freshly created matcher ({', '.join(assumed)})")
+    # every graph query that the matcher can reach was seen (and judged) in one of the views: a query in a helper that the views do
+    # not show (a callable handed around, a call the resolver cannot follow) would otherwise pass unexamined
+    for g in reachable_funcs(repo, entries, byname=True):
+        if g.module.name.startswith("pytestarch.eval_structure"):
+            continue
+        for x in own_nodes(g.node):
+            if _query_site(x) and id(x) not in judged_sites:
+                res.undecide("C11.R1", repo.key(g, stmt_of(x)) + " [graph query outside the view]", f"{g.qualname} queries the graph (`{norm(x, 70)}`) but the call is not part of the inlined view of the matcher entry point: its arguments cannot be traced to the conversion", where(g, x))
     res_.floor("C11.R1", 1, nq)  # at least one graph query was found and judged (a view without queries is an ANALYSIS-ERROR above)
+
+
+# --------------------------------------------------------------------------------------------------------------- C11.R5
+
+NO_MATCH = ("pytestarch.eval_structure.exceptions", "ImpossibleMatch")
+
+
+def _swallowed(repo: Repo, fn: Fn, call: ast.AST) -> tuple[ast.AST, str] | None:
+    """The construct between `call` and the caller of the analysed function that keeps an ImpossibleMatch raised inside `call`
+    from propagating as an error: an `except` clause that catches it (by class, by a base class, bare) and does not end in a
+    `raise` of an error on every path, a `contextlib.suppress`, a `finally` that returns.  None if there is none."""
+    try:
+        nm = repo.cls(*NO_MATCH)
+        bases = {c.fq for c in repo.mro(nm)}
+    except Exception:  # noqa: BLE001
+        nm, bases = None, set()
+
+    def catches(t: ast.AST | None) -> bool:
+        if t is None:
+            return True
+        for x in (t.elts if isinstance(t, ast.Tuple) else [t]):
+            last = dotted(x).split(".")[-1] if dotted(x) else ""
+            if last in ("Exception", "BaseException", "ImpossibleMatch"):
+                return True
+            ty = fn.type_of(x)
+            if any(m[0] == "type" and m[1] in bases for m in _members(ty)):
+                return True
+        return False
+
+    def verdict_class(exc: ast.AST | None, handler_name: str | None) -> bool:
+        """Does `raise exc` report a verdict (AssertionError) instead of an error?"""
+        if exc is None or (isinstance(exc, ast.Name) and exc.id == handler_name):
+            return False
+        head = exc.func if isinstance(exc, ast.Call) else exc
+        return dotted(head).split(".")[-1] == "AssertionError"
+
+    def ends_in_error(body: list[ast.stmt], handler_name: str | None) -> bool:
+        if not body:
+            return False
+        last = body[-1]
+        if isinstance(last, ast.Raise):
+            return not verdict_class(last.exc, handler_name)
+        if isinstance(last, ast.If):
+            return ends_in_error(last.body, handler_name) and ends_in_error(last.orelse, handler_name)
+        if isinstance(last, (ast.With, ast.AsyncWith)):
+            return ends_in_error(last.body, handler_name)
+        return False
+
+    cur: ast.AST = call
+    for a in ancestors(call):
+        if isinstance(a, (ast.FunctionDef, ast.AsyncFunctionDef, ast.Lambda)):
+            break
+        if isinstance(a, ast.Try):
+            in_body = any(cur is x for x in a.body)
+            if in_body:
+                for h in a.handlers:
+                    if catches(h.type) and not ends_in_error(h.body, h.name):
+                        turned = bool(h.body) and isinstance(h.body[-1], ast.Raise) and verdict_class(h.body[-1].exc, h.name)
+                        return h, f"`except {norm(h.type, 50) if h.type is not None else ''}`".replace("except `", "except`") + (" turns it into an AssertionError, the report of a violated rule" if turned else " catches it and goes on")
+            if (in_body or any(cur is x for h in a.handlers for x in h.body) or any(cur is x for x in a.orelse)) and any(isinstance(x, ast.Return) for st in a.finalbody for x in ast.walk(st)):
+                return a, "a `finally` block returns, which discards it"
+        if isinstance(a, (ast.With, ast.AsyncWith)) and any(cur is x for x in a.body):
+            for it in a.items:
+                ce = it.context_expr
+                if isinstance(ce, ast.Call) and (fn.lib_name(ce.func) in ("contextlib.suppress", "suppress") or dotted(ce.func).split(".")[-1] == "suppress") and any(catches(x) for x in ce.args):
+                    return a, f"`{norm(ce, 50)}` suppresses it"
+        cur = a
+    return None
+
+
+def _error_as_value(repo: Repo, g: FuncInfo, handler: ast.ExceptHandler, callers: list[tuple[FuncInfo, ast.Call]]):
+    """`except ImpossibleMatch as e: return <.., description>` / `return <.., None>`: the failure is handed to the callers as a value
+    (a position of the returned tuple that is None on success only).  True if every caller raises an error (not a verdict)
+    whenever it receives such a value, (False, why) if one provably does not, None if the idiom is not recognised."""
+    from core.guards import atoms_of, f_and, f_not, implies as implies_f
+    from .common import truth
+
+    def tuple_of(r: ast.Return):
+        v = r.value
+        return list(v.elts) if isinstance(v, ast.Tuple) else None
+
+    in_handlers = {id(x) for t in ast.walk(g.node) if isinstance(t, ast.Try) for h in t.handlers for st in h.body for x in ast.walk(st)}
+    h_rets = [r for st in handler.body for r in ast.walk(st) if isinstance(r, ast.Return)]
+    n_rets = [r for r in own_nodes(g.node) if isinstance(r, ast.Return) and id(r) not in in_handlers]
+    if len(h_rets) != 1 or not n_rets or h_rets[0].value is None:
+        return None
+    th = tuple_of(h_rets[0])
+    tns = [tuple_of(r) for r in n_rets]
+    if th is None or any(t is None or len(t) != len(th) for t in tns):
+        return None
+    is_none = lambda e: isinstance(e, ast.Constant) and e.value is None  # noqa: E731
+    idx = [i for i in range(len(th)) if all(is_none(t[i]) for t in tns) and not is_none(th[i])]
+    if len(idx) != 1 or not callers:
+        return None
+    i = idx[0]
+    for h, call in callers:
+        st = stmt_of(call)
+        if not (isinstance(st, ast.Assign) and st.value is call and len(st.targets) == 1 and isinstance(st.targets[0], ast.Tuple) and len(st.targets[0].elts) == len(th)):
+            return None
+        mk = st.targets[0].elts[i]
+        if not (isinstance(mk, ast.Name) or (isinstance(mk, ast.Attribute) and isinstance(mk.value, ast.Name))):
+            return None
+        prem = f_and([truth(h, norm(mk)), f_not(truth(h, f"{norm(mk)} is None"))])
+        markers: set[str] = set()
+        for h2, c2 in callers:
+            if h2 is h:
+                s2 = stmt_of(c2)
+                if isinstance(s2, ast.Assign) and isinstance(s2.targets[0], ast.Tuple) and len(s2.targets[0].elts) == len(th):
+                    m2 = norm(s2.targets[0].elts[i])
+                    markers |= atoms_of(truth(h, m2)) | atoms_of(truth(h, f"{m2} is None"))
+        raises = [r for r in own_nodes(h.node) if isinstance(r, ast.Raise) and r.exc is not None and getattr(r, "lineno", 0) > getattr(st, "lineno", 0) and dotted(r.exc.func if isinstance(r.exc, ast.Call) else r.exc).split(".")[-1] != "AssertionError"]
+        if not raises:
+            return False, f"{h.qualname} receives the failure of `{norm(call, 50)}` in `{norm(mk)}` and never raises an error for it"
+        guards = [guard_formula(h, r) for r in raises]
+        if any(implies_f(prem, gd) for gd in guards):
+            continue
+        if all(atoms_of(gd) <= markers for gd in guards):
+            from core.guards import show as show_formula
+
+            return False, f"{h.qualname} receives the failure of `{norm(call, 50)}` in `{norm(mk)}` but raises only if `{show_formula(guards[0])}`"
+        return None
+    return True
+
+
+def run_r5(repo: Repo, res: Result) -> None:
+    """'raises a no-match error (never a verdict) when nothing matches': the ImpossibleMatch raised by the conversion reaches the
+    caller of Rule.assert_applies - in no function on a call path from Rule.assert_applies to ModuleNameConverter.convert does the
+    call that leads on to the conversion sit under a construct that catches the error and goes on to a verdict."""
+    from .common import callees_of
+
+    T = types_of(repo)
+    rule = repo.cls(RULE, "Rule")
+    aa = rule.methods.get("assert_applies")
+    conv = repo.cls(CONVERTER, "ModuleNameConverter").methods.get("convert")
+    if aa is None or conv is None:
+        raise AnalysisError("Rule.assert_applies / ModuleNameConverter.convert not found")
+    _entry_points(repo)  # the matcher call must exist (raises otherwise)
+    reach = list(reachable_funcs(repo, [aa], byname=False))
+    edges = {f: set(callees_of(repo, f, False)) for f in reach}
+    leads: set = {conv}
+    changed = True
+    while changed:
+        changed = False
+        for f, cs in edges.items():
+            if f not in leads and cs & leads:
+                leads.add(f)
+                changed = True
+    if aa not in leads:
+        res.undecide("C11.R5", f"{aa.relpath}::{aa.qualname}::no-match error propagates", "no call path from Rule.assert_applies to ModuleNameConverter.convert could be resolved", where(aa, aa.node))
+        return
+    sites: dict = {}  # function -> calls that lead on to the conversion
+    for f in sorted(leads - {conv}, key=lambda x: x.fq):
+        if f.module.name.startswith("pytestarch.eval_structure") or isinstance(f.node, ast.Lambda):
+            continue
+        for c in own_nodes(f.node):
+            if isinstance(c, ast.Call):
+                try:
+                    cs, _how = T.callees(f, c, byname_fallback=False)
+                except Exception:  # noqa: BLE001
+                    cs = []
+                if set(cs) & leads:
+                    sites.setdefault(f, []).append(c)
+    n = 0
+    for f, calls in sites.items():
+        fn = Fn(repo, f)
+        for c in calls:
+            n += 1
+            got = _swallowed(repo, fn, c)
+            key = repo.key(f, stmt_of(c)) + f" [{norm(c.func, 60)}: no-match error propagates]"
+            if got is None:
+                res.add("C11.R5", key, True, "an ImpossibleMatch raised below this call leaves the function as an error", where(f, c), kind="dominance")
+                continue
+            node, why = got
+            if isinstance(node, ast.ExceptHandler) and node.body and isinstance(node.body[-1], ast.Return) and node.body[-1].value is not None:
+                callers = [(h, m) for h, ms in sites.items() for m in ms if f in set(T.callees(h, m, byname_fallback=False)[0])]
+                d = _error_as_value(repo, f, node, callers)
+                if d is True:
+                    res.add("C11.R5", key, True, "the ImpossibleMatch is handed to the callers as a value, and every caller raises an error whenever it receives one", where(f, c), kind="dominance")
+                    continue
+                if d is None:
+                    res.undecide("C11.R5", key, f"`{norm(c, 50)}`: {why}, returning `{norm(node.body[-1].value, 50)}` - whether every caller raises an error for it was not recognised", where(f, node))
+                    continue
+                why = f"{why}; {d[1]}"
+            res.add("C11.R5", key, False, f"an ImpossibleMatch raised below `{norm(c, 50)}` does not reach the user: {why} - a regex that matches nothing yields a verdict instead of the no-match error", where(f, node), kind="dominance")
+    res.floor("C11.R5", 3, n)
 
 
 # --------------------------------------------------------------------------------------------------------------- C11.R2
@@ -1147,6 +1760,114 @@ def _stored_filters(repo: Repo, res: Result, m: FuncInfo, what: str, translate: 
     res.add("C11.R3", f"{m.relpath}::{m.qualname}::one filter per {what}", not dropped, f"every given {what} yields exactly one filter, which is stored in the rule" if not dropped else dropped[0] + f": not every given {what} yields a filter", where(view, view.node), kind="structural")
 
 
+def _store_signature(repo: Repo, m: FuncInfo):
+    """Where and when the public method `m` of Rule stores the filters it builds from its parameter:
+    ({(state field, how): guard formula with the parameter renamed}, reason why the signature is not fully known or '')."""
+    import re as _re
+
+    from core.guards import TRUE
+
+    T = types_of(repo)
+    view = inline_view(repo, m, T, allow=_allow_r3)
+    fn = Fn(repo, view)
+    co = Collections(fn)
+    param = view.param_names[1]
+    sig: dict[tuple[str, str], object] = {}
+    unknown = ""
+
+    def rename(f):  # noqa: ANN001
+        if f[0] == "atom":
+            return ("atom", _re.sub(rf"\b{_re.escape(param)}\b", "<given>", f[1]))
+        if f[0] == "not":
+            return ("not", rename(f[1]))
+        if f[0] in ("and", "or"):
+            return (f[0], [rename(x) for x in f[1]])
+        return f
+
+    def place(e: ast.AST) -> str:
+        """`self._configuration.modules_to_check` for the target, through local aliases of parts of the object"""
+        if isinstance(e, ast.Attribute):
+            return f"{place(e.value)}.{e.attr}"
+        if isinstance(e, ast.Subscript):
+            return f"{place(e.value)}[{norm(e.slice, 40)}]"
+        if isinstance(e, ast.Name) and e.id != "self" and parent(e) is not None and e.id not in fn.params:
+            x = fn.expand(e)
+            if x is not e and not isinstance(x, ast.Name):
+                return place(x)
+        return norm(e, 60)
+
+    for stmt, value in _self_sinks(view, fn):
+        d = co.normalise(co.describe(value))
+        if not any(any(param in names_loaded(b.source) for b in c.binders) or (c.elt is not None and (param in names_loaded(c.elt) or _builds_filter(fn, c.elt))) for c in d.contribs):
+            continue
+        g = rename(guard_formula(view, stmt_of(stmt) if not isinstance(stmt, ast.stmt) else stmt))
+        entries: list[tuple[str, str, object]] = []
+        if isinstance(stmt, ast.Assign):
+            for t in stmt.targets:
+                if isinstance(t, (ast.Attribute, ast.Subscript)):
+                    entries.append((place(t), "assign", g))
+        elif isinstance(stmt, ast.Call) and isinstance(stmt.func, ast.Name):  # setattr(obj, name, value)
+            name = fn.expand(stmt.args[1]) if parent(stmt.args[1]) is not None else stmt.args[1]
+            if isinstance(name, ast.Constant) and isinstance(name.value, str):
+                entries.append((f"{place(stmt.args[0])}.{name.value}", "assign", g))
+            elif isinstance(name, ast.IfExp) and all(isinstance(x, ast.Constant) and isinstance(x.value, str) for x in (name.body, name.orelse)):
+                from core.guards import f_and, f_not, to_formula
+
+                c = rename(to_formula(name.test))
+                entries.append((f"{place(stmt.args[0])}.{name.body.value}", "assign", f_and([g, c])))
+                entries.append((f"{place(stmt.args[0])}.{name.orelse.value}", "assign", f_and([g, f_not(c)])))
+            elif not (names_loaded(name) - {"self"}):
+                # chosen by an expression over the rule's own state: comparable when both methods spell it alike
+                entries.append((f"{place(stmt.args[0])}.<{norm(name, 80)}>", "assign", g))
+            else:
+                unknown = unknown or f"`{norm(stmt, 60)}` chooses the field by a computed name"
+        elif isinstance(stmt, ast.Call) and isinstance(stmt.func, ast.Attribute):
+            entries.append((place(stmt.func.value), stmt.func.attr, g))
+        for fld, how, gg in entries:
+            k = (fld, how)
+            sig[k] = f_or([sig[k], gg]) if k in sig else gg
+    return sig, unknown, view
+
+
+def _same_store(repo: Repo, res: Result, partial: FuncInfo, regex: FuncInfo) -> None:
+    """The deprecated partial-name form configures the rule exactly like the regex form: the filters go to the same state
+    fields, in the same way (replace / extend), under equivalent conditions - only the pattern text differs (C11.R3 above)."""
+    from core.guards import atoms_of, equivalent
+    from core.guards import show as show_formula
+
+    key = f"{partial.relpath}::{partial.qualname}::stores like have_name_matching"
+    sa, ua, va = _store_signature(repo, partial)
+    sb, ub, vb = _store_signature(repo, regex)
+    if ua or ub or not sa or not sb:
+        res.undecide("C11.R3", key, ua or ub or "no store of the filters into the rule's state was recognised in one of the two methods", where(va, va.node))
+        return
+    only_a = sorted(set(sa) - set(sb))
+    only_b = sorted(set(sb) - set(sa))
+    if any("<" in k[0] for k in only_a + only_b):
+        res.undecide("C11.R3", key, f"the state field is chosen by a computed name (`{[k[0] for k in only_a + only_b if '<' in k[0]][0]}`) in one of the two methods only", where(va, va.node))
+        return
+    if only_a or only_b:
+        fa = sorted({k[0] for k in sa})
+        fb = sorted({k[0] for k in sb})
+        if fa == fb:
+            k = (only_a or only_b)[0]
+            other = next(x for x in (sb if only_a else sa) if x[0] == k[0])
+            why = f"have_name_containing stores its filters into `{k[0]}` by `{(k if only_a else other)[1]}`, have_name_matching by `{(other if only_a else k)[1]}`"
+        else:
+            why = f"have_name_containing stores its filters into {fa}, have_name_matching into {fb}"
+        res.add("C11.R3", key, False, why + ": a rule given by a partial name is not configured like the rule given by the translated regex", where(va, va.node), kind="structural")
+        return
+    for k in sorted(sa):
+        if equivalent(sa[k], sb[k]):
+            continue
+        if atoms_of(sa[k]) == atoms_of(sb[k]):
+            res.add("C11.R3", key, False, f"have_name_containing stores into `{k[0]}` when `{show_formula(sa[k])}`, have_name_matching when `{show_formula(sb[k])}`: a rule given by a partial name is not configured like the rule given by the translated regex", where(va, va.node), kind="structural")
+        else:
+            res.undecide("C11.R3", key, f"the conditions under which `{k[0]}` is stored are spelled differently in the two methods (`{show_formula(sa[k])}` / `{show_formula(sb[k])}`)", where(va, va.node))
+        return
+    res.add("C11.R3", key, True, f"both forms store their filters into {sorted({k[0] for k in sa})} in the same way and under equivalent conditions", where(va, va.node), kind="structural")
+
+
 def run_r3(repo: Repo, res: Result) -> None:
     rule = repo.cls(RULE, "Rule")
     m = rule.methods.get("have_name_containing")
@@ -1158,6 +1879,8 @@ def run_r3(repo: Repo, res: Result) -> None:
     if hm is None:
         raise AnalysisError("Rule.have_name_matching not found")
     _stored_filters(repo, res, hm, "regex", False)
+    if m is not None:
+        _same_store(repo, res, m, hm)
 
 
 # --------------------------------------------------------------------------------------------------------------- C11.R4
@@ -1298,6 +2021,7 @@ def run_r4(repo: Repo, res: Result) -> None:
         )
         # ---- independent searches: the value of a key is a search over the graph, the key and whole given collections only
         bad = []
+        unsure4: list[str] = []
         for c in contribs:
             bnames = {x for b in c.binders for x in b.names}
             if c.value is None:
@@ -1307,7 +2031,11 @@ def run_r4(repo: Repo, res: Result) -> None:
                 call = _strip_copies(cand)
                 searches_in = [x for x in ast.walk(cand) if isinstance(x, ast.Call) and (lambda cs: bool(cs) and all(f.module.name == SEARCHES for f in cs))(fn.callees(x)[0])]
                 if not searches_in:
-                    bad.append(f"the value `{norm(cand, 80)}` stored for a key is not computed by a graph search for that key (it is derived from other state)")
+                    kind, why = _helper_search(fn, co, call, bnames, params, key_params)
+                    if kind == "bad":
+                        bad.append(why)
+                    elif kind == "unsure":
+                        unsure4.append(why)
                     continue
                 if call is not searches_in[0] or len(searches_in) != 1:
                     others = sorted({x.id for x in ast.walk(cand) if isinstance(x, ast.Name) and x.id in fn.mutated} - bnames)
@@ -1318,6 +2046,8 @@ def run_r4(repo: Repo, res: Result) -> None:
                     if why:
                         bad.append(f"the search also receives `{show(a, 60)}`{why}")
         n += 1
+        if unsure4 and not bad:
+            res.undecide("C11.R4", base_key + " [independent searches]", unsure4[0], where(view, key_node))
         res.add(
             "C11.R4",
             base_key + " [independent searches]",
@@ -1346,6 +2076,108 @@ def run_r4(repo: Repo, res: Result) -> None:
     res.floor("C11.R4", 12, n)
 
 
+def _helper_search(fn: Fn, co: Collections, call: ast.AST, bnames: set[str], params: list[str], key_params: list[str]) -> tuple[str, str]:
+    """The value stored for a key is the result of a repo helper that could not be replaced by its body (a loop, a try, several
+    statements).  ("ok", "") if the helper runs a graph search, changes nothing that outlives the call, and is given only the key
+    and whole collections; ("bad", why) with the offending construct; ("unsure", why) if the helper cannot be followed."""
+    repo = fn.repo
+    T = types_of(repo)
+    shown = norm(call, 80)
+    if not isinstance(call, ast.Call):
+        return "bad", f"the value `{shown}` stored for a key is not computed by a graph search for that key (it is derived from other state)"
+    h = fn.callee(call)
+    if h is None or isinstance(h.node, ast.Lambda):
+        cs, _how = fn.callees(call)
+        if not cs:
+            return "bad", f"the value `{shown}` stored for a key is not computed by a graph search for that key (it is derived from other state)"
+        return "unsure", f"the value `{shown}` stored for a key is computed by a helper that could not be resolved uniquely"
+    inside = reachable_funcs(repo, [h], byname=False)
+    if not any(g.module.name == SEARCHES for g in inside):
+        return "bad", f"the value `{shown}` stored for a key is not computed by a graph search for that key (it is derived from other state)"
+    # nothing that outlives the call is changed: fields of the receiver / of parameters, containers handed in
+    orig_call = getattr(call, "_orig", (None, call))[1]
+    own_object = isinstance(orig_call, ast.Call) and isinstance(orig_call.func, ast.Attribute) and isinstance(orig_call.func.value, ast.Call) and bool(_ctor_class(fn, call.func.value) if isinstance(call.func, ast.Attribute) else False)
+    for g in inside:
+        if g.module.name == SEARCHES or g.module.name.startswith("pytestarch.eval_structure.networkxgraph") or g.name in ("__init__", "__post_init__"):
+            continue
+        gp = set(g.param_names)
+        gfn = Fn(repo, g)
+        for x in own_nodes(g.node):
+            tgt = None
+            if isinstance(x, ast.Attribute) and isinstance(x.ctx, (ast.Store, ast.Del)):
+                tgt = x.value
+            elif isinstance(x, ast.Subscript) and isinstance(x.ctx, (ast.Store, ast.Del)):
+                tgt = x.value
+            elif isinstance(x, ast.Call) and isinstance(x.func, ast.Attribute) and x.func.attr in ("append", "extend", "add", "update", "remove", "pop", "clear", "discard", "insert", "setdefault", "popitem", "difference_update", "intersection_update", "sort", "reverse"):
+                tgt = x.func.value
+            elif isinstance(x, (ast.Global, ast.Nonlocal)):
+                return "bad", f"the helper {g.qualname} that computes the value of a key keeps state outside the call (`{header(x)}`): state is shared between the searches of one batch"
+            if tgt is None:
+                continue
+            root = tgt
+            while isinstance(root, (ast.Attribute, ast.Subscript)):
+                root = root.value
+            if own_object and isinstance(root, ast.Name) and g.cls is h.cls and g.params and root.id == g.params[0].arg and not g.is_staticmethod:
+                # the helper object is created for this key only: re-binding its fields does not outlive the entry; changing the
+                # object a field refers to is fine if that object was made for this helper object (not handed in and shared)
+                if isinstance(x, ast.Attribute) and x.value is root:
+                    continue
+                fld = tgt
+                while isinstance(fld, (ast.Attribute, ast.Subscript)) and not (isinstance(fld, ast.Attribute) and fld.value is root):
+                    fld = fld.value
+                if isinstance(fld, ast.Attribute) and _field_is_private_copy(fn, orig_call.func.value, h.cls, fld.attr):  # as written: a local that holds a set is shared
+                    continue
+            local_names = {n_.id for n_ in own_nodes(g.node) if isinstance(n_, ast.Name) and isinstance(n_.ctx, ast.Store)}
+            if isinstance(root, ast.Name) and (root.id in gp or root.id not in local_names):
+                # a parameter, or a variable of an enclosing scope (closure / module): the object is not made by this call.
+                # (a parameter re-bound locally to a fresh container first is a local)
+                defs = gfn.reaching(root.id, root) if parent(root) is not None else []
+                if root.id in gp and isinstance(tgt, ast.Name) and defs and all(d.kind == "assign" for d in defs):
+                    continue
+                return "bad", f"the helper {g.qualname} that computes the value of a key changes `{norm(tgt, 50)}` (`{header(stmt_of(x))[:60]}`), which outlives the call: state is shared between the searches of one batch"
+    for a in [*([call.func.value] if isinstance(call.func, ast.Attribute) else []), *call.args, *[k.value for k in call.keywords]]:
+        why = _own_key_and_whole_sets_only(fn, co, a, bnames, params, key_params)
+        if why:
+            return "bad", f"the helper also receives `{show(a, 60)}`{why}"
+    return "ok", ""
+
+
+def _fresh_container(e: ast.AST | None) -> bool:
+    if isinstance(e, (ast.List, ast.Set, ast.Dict, ast.ListComp, ast.SetComp, ast.DictComp)):
+        return True
+    return isinstance(e, ast.Call) and isinstance(e.func, ast.Name) and e.func.id in ("set", "list", "dict", "sorted", "frozenset", "tuple", "defaultdict", "deque")
+
+
+def _field_is_private_copy(fn: Fn, ctor_call: ast.AST, ci, attr: str) -> bool:  # noqa: ANN001
+    """`self.<attr>` of the helper object built by `ctor_call` refers to a container made for that object: the constructor assigns a
+    fresh container, or a parameter for which the call hands in a fresh copy."""
+    init = fn.repo.lookup_method(ci, "__init__") if ci is not None else None
+    if init is None or not isinstance(ctor_call, ast.Call):
+        return False
+    vals = []
+    for n in own_nodes(init.node):
+        pairs = []
+        if isinstance(n, ast.Assign):
+            pairs = [(t, n.value) for t in n.targets]
+        elif isinstance(n, ast.AnnAssign) and n.value is not None:
+            pairs = [(n.target, n.value)]
+        for t, v in pairs:
+            if isinstance(t, ast.Attribute) and t.attr == attr and isinstance(t.value, ast.Name) and t.value.id == init.param_names[0]:
+                vals.append(v)
+    if not vals:
+        return False
+    names = init.param_names[1:]
+    given: dict[str, ast.AST] = dict(zip(names, ctor_call.args))
+    given.update({k.arg: k.value for k in ctor_call.keywords if k.arg})
+    for v in vals:
+        if _fresh_container(v):
+            continue
+        if isinstance(v, ast.Name) and v.id in given and _fresh_container(given[v.id]):
+            continue
+        return False
+    return True
+
+
 def _own_key_and_whole_sets_only(fn: Fn, co: Collections, a: ast.AST, bnames: set[str], params: list[str], key_params: list[str], depth: int = 0) -> str:
     """'' if the argument is computed from the key of this search, the graph and whole given collections of the *other* side only
     (then the search for a key is the same in a batch and in the single rule); else the reason."""
@@ -1357,6 +2189,18 @@ def _own_key_and_whole_sets_only(fn: Fn, co: Collections, a: ast.AST, bnames: se
         return ""
     if isinstance(a, ast.Attribute) and _is_graph(fn, a):
         return ""  # the graph itself (read-only for the searches)
+    if isinstance(a, ast.Name) and a.id in ("self", "cls"):
+        return ""  # the architecture object: its fields are judged where the helper reads them
+    if depth < 3 and isinstance(a, ast.Call) and _ctor_class(fn, a):
+        for x in [*a.args, *[k.value for k in a.keywords]]:  # a helper object built from the graph and whole collections
+            w = _own_key_and_whole_sets_only(fn, co, x, bnames, params, key_params, depth + 1)
+            if w:
+                return w
+        return ""
+    if depth < 3 and isinstance(a, ast.Name) and parent(a) is not None and a.id not in bnames and a.id not in params:
+        x = fn.expand(a)
+        if x is not a and not isinstance(x, ast.Name):
+            return _own_key_and_whole_sets_only(fn, co, x, bnames, params, key_params, depth + 1)
     da = co.normalise(co._describe_copy(a))
     if not da.unknown and not da.removals and len(da.contribs) == 1 and not da.contribs[0].conds and len(da.contribs[0].binders) == 1 and da.contribs[0].binders[0].root and isinstance(da.contribs[0].elt, ast.Name) and da.contribs[0].elt.id in da.contribs[0].binders[0].names:
         src = dotted(da.contribs[0].binders[0].source)
@@ -1403,9 +2247,11 @@ def run(repo: Repo) -> Result:
         "conversion and never from state that existed before it; (R2) the conversion result is described as a set comprehension and must be "
         "{ModuleNameFilter(m) | m in arch.modules, f regex filter, re.match(f.identifier, m)} plus the non-regex filters unchanged, the scan has "
         "no early exit, and ImpossibleMatch is raised exactly when the set of never-matched patterns is non-empty, before any return; (R3) "
-        "have_name_containing stores {ModuleNameRegexFilter(convert_partial_match_to_regex(n)) | n in names}, unfiltered, on every path; (R4) "
+        "have_name_containing stores {ModuleNameRegexFilter(convert_partial_match_to_regex(n)) | n in names}, unfiltered, on every path, into the "
+        "same state fields, in the same way and under equivalent conditions as have_name_matching; (R4) "
         "each of the three public queries stores one graph search per element of the given collections, computed from the graph, its own key "
-        "and whole given collections only, with no state carried between keys, so a batch is the conjunction of the single rules. Together with "
+        "and whole given collections only, with no state carried between keys, so a batch is the conjunction of the single rules; (R5) nothing between "
+        "the conversion and the caller of Rule.assert_applies catches the ImpossibleMatch of an unmatched regex and goes on to a verdict. Together with "
         "purity (C15) identical inputs give identical verdicts."
     )
     res.not_decided = "regexes matching a module and its sub modules (documented caveat); equality of verdicts is argued from identical pipelines, not observed; the translation convert_partial_match_to_regex itself is C08's."
@@ -1414,4 +2260,5 @@ def run(repo: Repo) -> Result:
     run_r2(repo, res)
     run_r3(repo, res)
     run_r4(repo, res)
+    run_r5(repo, res)
     return res
